@@ -4,7 +4,7 @@
   What is proved here about the generated `Gen.Sqrt` / `Gen.Cbrt` (translation of /repo/exp.go) against
   `Spec.specialCase`, `Spec.rootOk`, `Spec.judgeRoot` (D128/Spec/Elem.lean) over
   𝔳[d] = `Spec.interp d.lo d.hi`.  Statements only; the proofs assemble lemmas of
-  `D128/Proofs/SpecialsUnary.lean` and `D128/Proofs/D192Root{Defs,Math,Finish,Exact,Core,Heron,Halley,Findings}.lean`.
+  `D128/Proofs/SpecialsUnary.lean` and `D128/Proofs/D192Root{Defs,Math,Finish,Exact,Core,Heron,Halley,Findings,Ops,Rel,SqrtIter,SqrtMain,CbrtIter,CbrtMain,Gen}.lean`.
 
   1. dispatch (ALL bit patterns, every `Globals`):
        `sqrt_nan`, `cbrt_nan`            NaN returned bit for bit
@@ -39,13 +39,22 @@
      `finding_sqrt4_toPosInf`, `finding_cbrt4096_toZero` prove it for the finish stage on the iterates of
      `Sqrt(4)` / `Cbrt(4096)`.
 
-  NOT proved here (needs the contracts of `decomposed192.{mul,add,quo}`, proved elsewhere): that
-  `sqrtCore`/`cbrtCore` never panic and that each step has relative accuracy η ≤ 1e-55 (hypotheses `hx`,
-  `hstep`, `hseed` of 5c, range/normalisation of the last iterate, flag ∈ {0,±1} for Sqrt); with these, 5c
-  gives C17 for every finite argument under the nearest modes.  Numerically (`#eval` on some thousands of arguments over
-  the whole exponent range) the last iterate has 57–58 digits, is within −4…+89 working units of the root,
-  and `(a+1)·1e20·(Cmax+1) < sig` holds with a factor ≥ 49 to spare; the flag is 1 for Sqrt (sticky through
-  all iterations) and 0 or 1 for Cbrt (only the last multiplication's flag is kept).
+  7. UNCONDITIONAL (the contracts of `decomposed192.mul/add/quo` are discharged in
+     `D128/Proofs/D192Root{Ops,Rel,SqrtIter,SqrtMain,CbrtIter,CbrtMain,Gen}.lean`):
+       `sqrt_judge`, `cbrt_judge`       ALL 2^128 bit patterns, nearest default mode: no panic and
+                                         `Spec.judgeRoot … = .ok` — this is property C17
+       `sqrt_judge_default`, `cbrt_judge_default`   the same at `DefaultRoundingMode = ToNearestEven`
+       `sqrt_correct`, `cbrt_correct`   the general path in `rootOk` form (result finite, sign of `d`)
+       `sqrt_exact`, `cbrt_exact`       perfect squares / cubes of Decimals give exactly the root (nearest modes)
+       `sqrt_total`, `cbrt_total`       EVERY valid mode byte, every bit pattern: no panic
+       `sqrt_any_mode`, `cbrt_any_mode` every valid mode byte: within (1 + 1e-20) spacings of the root
+     Proof route: seed exact and 1.078…2.67 times the root; each Heron step within relative `2^-185` of the
+     exact step (quotient in [-1/LIM, +2^-185], sum and halving in [-1/LIM, 0], LIM = 25·2^184); each Halley step
+     within `2^-184`; `heron8`/`halley7`; an un-normalised iterate can only arise when every operation so far was
+     exact with flag 0, in which case the final rounding is handled by rescaling the specification.
+  Only the invalid mode bytes (≥ 6) are not covered.  Numerically (`#eval` on some thousands of arguments over
+  the whole exponent range) the last iterate has 57–58 digits, is within −4…+89 working units of the root;
+  the flag is 1 for Sqrt (sticky through all iterations) and 0 or 1 for Cbrt.
   OBSERVATION: the two linear seeds of `Sqrt` look exchanged between the parity classes (`0.259 + 0.819·x` is
   Hull's approximation on [0.1,1) but is used on [1,10), and vice versa): the first guess is up to 2.67 times
   the root instead of within 4 %, and all 8 Heron steps are needed (see D128/Proofs/D192RootCore.lean).
@@ -57,6 +66,7 @@ import D128.Proofs.D192RootCore
 import D128.Proofs.D192RootHeron
 import D128.Proofs.D192RootHalley
 import D128.Proofs.D192RootFindings
+import D128.Proofs.D192RootGen
 set_option autoImplicit false
 set_option maxRecDepth 4096
 
@@ -558,6 +568,188 @@ example (g : Globals) (hg : g.DefaultRoundingMode = 0)
     (by unfold Spec.Cmax; simp [U192.toNat])
     (by simp [U192.toNat]; norm_num)
     (by simp [U192.toNat]; norm_num)
+
+/-! ## 7. UNCONDITIONAL theorems (operation contracts of `decomposed192.mul/add/quo` discharged) -/
+
+/-- the general path: `Spec.specialCase … = none` means a finite non-zero operand (non-negative for Sqrt) -/
+theorem general_of_none_sqrt (d : Gen.Decimal) (h : Spec.specialCase .sqrt 𝔳[d] = none) :
+    ∃ c e, 𝔳[d] = .fin false c e ∧ Gen.Decimal.isSpecial d = false ∧ Gen.Decimal.IsZero d = false ∧
+      Gen.Decimal.Signbit d = false := by
+  have hF := Enc.interp_isFin d
+  have hZ := Enc.interp_isZero d
+  have hN := Enc.interp_neg d
+  cases hv : 𝔳[d] with
+  | nan n p => rw [hv] at h; simp [Spec.specialCase] at h
+  | inf n => rw [hv] at h; simp [Spec.specialCase] at h
+  | fin n c e =>
+    rw [hv] at h hF hZ hN
+    have hc : c ≠ 0 := by
+      rintro rfl; simp [Spec.specialCase] at h
+    have hc' : (c == 0) = false := by simpa using hc
+    cases n
+    · refine ⟨c, e, rfl, ?_, ?_, ?_⟩
+      · simpa [Spec.Val.isFin] using hF
+      · rw [← hZ, Enc.isZero_fin]; simpa using hc
+      · rw [← hN]; rfl
+    · simp [Spec.specialCase, hc'] at h
+
+theorem general_of_none_cbrt (d : Gen.Decimal) (h : Spec.specialCase .cbrt 𝔳[d] = none) :
+    ∃ n c e, 𝔳[d] = .fin n c e ∧ Gen.Decimal.isSpecial d = false ∧ Gen.Decimal.IsZero d = false := by
+  have hF := Enc.interp_isFin d
+  have hZ := Enc.interp_isZero d
+  cases hv : 𝔳[d] with
+  | nan n p => rw [hv] at h; simp [Spec.specialCase] at h
+  | inf n => rw [hv] at h; simp [Spec.specialCase] at h
+  | fin n c e =>
+    rw [hv] at h hF hZ
+    have hc : c ≠ 0 := by
+      rintro rfl; simp [Spec.specialCase] at h
+    refine ⟨n, c, e, rfl, ?_, ?_⟩
+    · simpa [Spec.Val.isFin] using hF
+    · rw [← hZ, Enc.isZero_fin]; simpa using hc
+
+/-- **C17 for `Sqrt`, general path.**  Every finite, non-zero, non-negative Decimal `d = c·10^e`, default
+rounding mode nearest-even or nearest-away: `Sqrt(d)` does not panic and is a non-negative finite Decimal
+`rc·10^re` accepted by `Spec.rootOk 2` — one of the two Decimals adjacent to `√d`, error ≤ (1/2 + 1e-20) ulp. -/
+theorem sqrt_correct (g : Globals) (m : Spec.Mode) (d : Gen.Decimal) (c : Nat) (e : Int)
+    (h1 : Gen.Decimal.isSpecial d = false) (h2 : Gen.Decimal.IsZero d = false)
+    (h3 : Gen.Decimal.Signbit d = false) (hv : 𝔳[d] = .fin false c e)
+    (hm : Spec.Mode.ofNat? g.DefaultRoundingMode.toNat = some m)
+    (hn : m = .nearestEven ∨ m = .nearestAway) :
+    ∃ r rc re, Gen.Sqrt g d = .ok r ∧ 𝔳[r] = .fin false rc re ∧ Spec.rootOk 2 c e rc re = true :=
+  Sqrt_correct g m d c e h1 h2 h3 hv hm (by rcases hn with h | h <;> rw [h] <;> rfl)
+
+/-- **C17 for `Cbrt`, general path.**  Every finite non-zero Decimal `d = ±c·10^e`: `Cbrt(d)` does not panic
+and is a finite Decimal `±rc·10^re` with the sign of `d` accepted by `Spec.rootOk 3`. -/
+theorem cbrt_correct (g : Globals) (m : Spec.Mode) (d : Gen.Decimal) (n : Bool) (c : Nat) (e : Int)
+    (h1 : Gen.Decimal.isSpecial d = false) (h2 : Gen.Decimal.IsZero d = false)
+    (hv : 𝔳[d] = .fin n c e)
+    (hm : Spec.Mode.ofNat? g.DefaultRoundingMode.toNat = some m)
+    (hn : m = .nearestEven ∨ m = .nearestAway) :
+    ∃ r rc re, Gen.Cbrt g d = .ok r ∧ 𝔳[r] = .fin n rc re ∧ Spec.rootOk 3 c e rc re = true :=
+  Cbrt_correct g m d n c e h1 h2 hv hm (by rcases hn with h | h <;> rw [h] <;> rfl)
+
+/-- **Property C17 for `Sqrt`: ALL 2^128 bit patterns.**  With a nearest default mode, `Sqrt(d)` never panics
+and the C17 judge accepts the result (special operands, zeros, negative arguments, and the general path). -/
+theorem sqrt_judge (g : Globals) (m : Spec.Mode) (d : Gen.Decimal)
+    (hm : Spec.Mode.ofNat? g.DefaultRoundingMode.toNat = some m)
+    (hn : m = .nearestEven ∨ m = .nearestAway) :
+    ∃ r, Gen.Sqrt g d = .ok r ∧ Spec.judgeRoot .sqrt 𝔳[d] 𝔳[r] = .ok := by
+  cases hs : Spec.specialCase .sqrt 𝔳[d] with
+  | some w => exact sqrt_judge_special g d w hs
+  | none =>
+    obtain ⟨c, e, hv, h1, h2, h3⟩ := general_of_none_sqrt d hs
+    obtain ⟨r, rc, re, hr, hvr, hok⟩ := sqrt_correct g m d c e h1 h2 h3 hv hm hn
+    refine ⟨r, hr, ?_⟩
+    have hc : c ≠ 0 := by
+      rintro rfl
+      have := Enc.interp_isZero d
+      rw [hv, h2] at this; simp [Spec.Val.isZero] at this
+    rw [hv, hvr]; exact judge_sqrt_fin c e rc re hc hok
+
+/-- **Property C17 for `Cbrt`: ALL 2^128 bit patterns.** -/
+theorem cbrt_judge (g : Globals) (m : Spec.Mode) (d : Gen.Decimal)
+    (hm : Spec.Mode.ofNat? g.DefaultRoundingMode.toNat = some m)
+    (hn : m = .nearestEven ∨ m = .nearestAway) :
+    ∃ r, Gen.Cbrt g d = .ok r ∧ Spec.judgeRoot .cbrt 𝔳[d] 𝔳[r] = .ok := by
+  cases hs : Spec.specialCase .cbrt 𝔳[d] with
+  | some w => exact cbrt_judge_special g d w hs
+  | none =>
+    obtain ⟨n, c, e, hv, h1, h2⟩ := general_of_none_cbrt d hs
+    obtain ⟨r, rc, re, hr, hvr, hok⟩ := cbrt_correct g m d n c e h1 h2 hv hm hn
+    refine ⟨r, hr, ?_⟩
+    have hc : c ≠ 0 := by
+      rintro rfl
+      have := Enc.interp_isZero d
+      rw [hv, h2] at this; simp [Spec.Val.isZero] at this
+    rw [hv, hvr]; exact judge_cbrt_fin n c e rc re hc hok
+
+/-- the package default `DefaultRoundingMode = ToNearestEven` (0) -/
+theorem sqrt_judge_default (g : Globals) (hg : g.DefaultRoundingMode = 0) (d : Gen.Decimal) :
+    ∃ r, Gen.Sqrt g d = .ok r ∧ Spec.judgeRoot .sqrt 𝔳[d] 𝔳[r] = .ok :=
+  sqrt_judge g .nearestEven d (by rw [hg]; rfl) (Or.inl rfl)
+theorem cbrt_judge_default (g : Globals) (hg : g.DefaultRoundingMode = 0) (d : Gen.Decimal) :
+    ∃ r, Gen.Cbrt g d = .ok r ∧ Spec.judgeRoot .cbrt 𝔳[d] 𝔳[r] = .ok :=
+  cbrt_judge g .nearestEven d (by rw [hg]; rfl) (Or.inl rfl)
+
+/-- **Totality for every valid default rounding mode** (the four directed modes included): `Sqrt` never
+panics, on any bit pattern. -/
+theorem sqrt_total (g : Globals) (m : Spec.Mode) (d : Gen.Decimal)
+    (hm : Spec.Mode.ofNat? g.DefaultRoundingMode.toNat = some m) : ∃ r, Gen.Sqrt g d = .ok r := by
+  cases hs : Spec.specialCase .sqrt 𝔳[d] with
+  | some w => obtain ⟨r, hr, -⟩ := sqrt_special g d w hs; exact ⟨r, hr⟩
+  | none =>
+    obtain ⟨c, e, hv, h1, h2, h3⟩ := general_of_none_sqrt d hs
+    obtain ⟨r, -, -, hr, -⟩ := Sqrt_anymode g m d c e h1 h2 h3 hv hm
+    exact ⟨r, hr⟩
+theorem cbrt_total (g : Globals) (m : Spec.Mode) (d : Gen.Decimal)
+    (hm : Spec.Mode.ofNat? g.DefaultRoundingMode.toNat = some m) : ∃ r, Gen.Cbrt g d = .ok r := by
+  cases hs : Spec.specialCase .cbrt 𝔳[d] with
+  | some w => obtain ⟨r, hr, -⟩ := cbrt_special g d w hs; exact ⟨r, hr⟩
+  | none =>
+    obtain ⟨n, c, e, hv, h1, h2⟩ := general_of_none_cbrt d hs
+    obtain ⟨r, -, -, hr, -⟩ := Cbrt_anymode g m d n c e h1 h2 hv hm
+    exact ⟨r, hr⟩
+
+/-- **Every valid mode**: on the general path the result is a finite Decimal of the right sign within
+`(1 + 1e-20)` spacings of the root (for the directed modes this cannot be improved to `rootOk`: findings). -/
+theorem sqrt_any_mode (g : Globals) (m : Spec.Mode) (d : Gen.Decimal) (c : Nat) (e : Int)
+    (h1 : Gen.Decimal.isSpecial d = false) (h2 : Gen.Decimal.IsZero d = false)
+    (h3 : Gen.Decimal.Signbit d = false) (hv : 𝔳[d] = .fin false c e)
+    (hm : Spec.Mode.ofNat? g.DefaultRoundingMode.toNat = some m) :
+    ∃ r rc re, Gen.Sqrt g d = .ok r ∧ 𝔳[r] = .fin false rc re ∧ rc ≠ 0 ∧ rc ≤ Spec.Cmax ∧
+      ((rc : ℚ) * (10 : ℚ) ^ re - (1 + (10 : ℚ) ^ (-20 : Int)) * (10 : ℚ) ^ (Spec.spacingExpS (rc : ℚ) re) ≤ 0 ∨
+        ((rc : ℚ) * (10 : ℚ) ^ re - (1 + (10 : ℚ) ^ (-20 : Int)) * (10 : ℚ) ^ (Spec.spacingExpS (rc : ℚ) re)) ^ 2
+          ≤ (c : ℚ) * (10 : ℚ) ^ e) ∧
+      (c : ℚ) * (10 : ℚ) ^ e ≤
+        ((rc : ℚ) * (10 : ℚ) ^ re + (1 + (10 : ℚ) ^ (-20 : Int)) * (10 : ℚ) ^ (Spec.spacingExpS (rc : ℚ) re)) ^ 2 :=
+  Sqrt_anymode g m d c e h1 h2 h3 hv hm
+theorem cbrt_any_mode (g : Globals) (m : Spec.Mode) (d : Gen.Decimal) (n : Bool) (c : Nat) (e : Int)
+    (h1 : Gen.Decimal.isSpecial d = false) (h2 : Gen.Decimal.IsZero d = false)
+    (hv : 𝔳[d] = .fin n c e)
+    (hm : Spec.Mode.ofNat? g.DefaultRoundingMode.toNat = some m) :
+    ∃ r rc re, Gen.Cbrt g d = .ok r ∧ 𝔳[r] = .fin n rc re ∧ rc ≠ 0 ∧ rc ≤ Spec.Cmax ∧
+      ((rc : ℚ) * (10 : ℚ) ^ re - (1 + (10 : ℚ) ^ (-20 : Int)) * (10 : ℚ) ^ (Spec.spacingExpS (rc : ℚ) re) ≤ 0 ∨
+        ((rc : ℚ) * (10 : ℚ) ^ re - (1 + (10 : ℚ) ^ (-20 : Int)) * (10 : ℚ) ^ (Spec.spacingExpS (rc : ℚ) re)) ^ 3
+          ≤ (c : ℚ) * (10 : ℚ) ^ e) ∧
+      (c : ℚ) * (10 : ℚ) ^ e ≤
+        ((rc : ℚ) * (10 : ℚ) ^ re + (1 + (10 : ℚ) ^ (-20 : Int)) * (10 : ℚ) ^ (Spec.spacingExpS (rc : ℚ) re)) ^ 3 :=
+  Cbrt_anymode g m d n c e h1 h2 hv hm
+
+/-- **Perfect squares give exact roots** (nearest default mode), unconditional: `d = (c'·10^e')²` with
+`c'·10^e'` a Decimal ⇒ `Sqrt(d)` has exactly the value `c'·10^e'`. -/
+theorem sqrt_exact (g : Globals) (m : Spec.Mode) (d : Gen.Decimal) (c : Nat) (e : Int) (c' : Nat) (e' : Int)
+    (h1 : Gen.Decimal.isSpecial d = false) (h2 : Gen.Decimal.IsZero d = false)
+    (h3 : Gen.Decimal.Signbit d = false) (hv : 𝔳[d] = .fin false c e)
+    (hm : Spec.Mode.ofNat? g.DefaultRoundingMode.toNat = some m)
+    (hn : m = .nearestEven ∨ m = .nearestAway)
+    (hc' : c' ≤ Spec.Cmax) (he0' : Spec.Emin ≤ e') (he1' : e' ≤ Spec.Emax)
+    (hX : (c : ℚ) * (10 : ℚ) ^ e = ((c' : ℚ) * (10 : ℚ) ^ e') ^ 2) :
+    ∃ r rc re, Gen.Sqrt g d = .ok r ∧ 𝔳[r] = .fin false rc re ∧
+      (rc : ℚ) * (10 : ℚ) ^ re = (c' : ℚ) * (10 : ℚ) ^ e' :=
+  Sqrt_exact g m d c e c' e' h1 h2 h3 hv hm (by rcases hn with h | h <;> rw [h] <;> rfl) hc' he0' he1' hX
+
+/-- **Perfect cubes give exact roots** (nearest default mode), unconditional. -/
+theorem cbrt_exact (g : Globals) (m : Spec.Mode) (d : Gen.Decimal) (n : Bool) (c : Nat) (e : Int)
+    (c' : Nat) (e' : Int)
+    (h1 : Gen.Decimal.isSpecial d = false) (h2 : Gen.Decimal.IsZero d = false)
+    (hv : 𝔳[d] = .fin n c e)
+    (hm : Spec.Mode.ofNat? g.DefaultRoundingMode.toNat = some m)
+    (hn : m = .nearestEven ∨ m = .nearestAway)
+    (hc' : c' ≤ Spec.Cmax) (he0' : Spec.Emin ≤ e') (he1' : e' ≤ Spec.Emax)
+    (hX : (c : ℚ) * (10 : ℚ) ^ e = ((c' : ℚ) * (10 : ℚ) ^ e') ^ 3) :
+    ∃ r rc re, Gen.Cbrt g d = .ok r ∧ 𝔳[r] = .fin n rc re ∧
+      (rc : ℚ) * (10 : ℚ) ^ re = (c' : ℚ) * (10 : ℚ) ^ e' :=
+  Cbrt_exact g m d n c e c' e' h1 h2 hv hm (by rcases hn with h | h <;> rw [h] <;> rfl) hc' he0' he1' hX
+
+/-- `sqrt_correct` and `sqrt_exact` on `d = 4` (lo = 4, hi = 6176 << 49): no hypothesis is left -/
+example (g : Globals) (hg : g.DefaultRoundingMode = 0) :=
+  sqrt_exact g .nearestEven ⟨4, 3476778912330022912⟩ 4 0 2 0 (by decide) (by decide) (by decide)
+    (by rw [Enc.interp_decompose _ (by decide)]
+        have : Gen.Decimal.decompose ⟨4, 3476778912330022912⟩ = (⟨4, 0⟩, 6176) := by decide
+        rw [this]; rfl)
+    (by rw [hg]; rfl) (Or.inl rfl) (by unfold Spec.Cmax; norm_num) (by unfold Spec.Emin; norm_num)
+    (by unfold Spec.Emax; norm_num) (by norm_num)
 
 /-! ## 6. Findings as theorems about the finish stage -/
 
